@@ -49,22 +49,23 @@ func (j *judge) count(k string) { j.counts[k]++ }
 // ---- what the documentation lets a request achieve ---------------------------------
 
 type expect struct {
-	class        string
-	allowSuccess bool
-	allowPartial bool
-	allowFail    bool // SSH_MSG_USERAUTH_FAILURE without partial success
-	allowPKOK    bool
-	allowTerm    bool   // the server may end the connection because of this request itself
-	next         int    // stage after a partial success
-	saDenied     string // non-empty: success is forbidden because this source-address path denies
-	userChange   bool
-	abandon      bool   // callback broke its own contract: stop modelling if the dialogue continues
-	inc          [2]int // [min,max] contribution to the failure count if answered with a plain failure
-	pkSigned     bool
-	unsatWhy     string // signed publickey request that no reading lets succeed: the reason
-	satRejected  bool   // fully valid signed request whose (user,key) the active callback rejects
-	saPresent    bool   // an accepting callback on this path returns a source-address option
-	why          string
+	class         string
+	allowSuccess  bool
+	allowPartial  bool
+	allowFail     bool // SSH_MSG_USERAUTH_FAILURE without partial success
+	allowPKOK     bool
+	allowTerm     bool   // the server may end the connection because of this request itself
+	next          int    // stage after a partial success
+	saDenied      string // non-empty: success is forbidden because this source-address path denies
+	userChange    bool
+	abandon       bool   // callback broke its own contract: stop modelling if the dialogue continues
+	inc           [2]int // [min,max] contribution to the failure count if answered with a plain failure
+	pkSigned      bool
+	unsatWhy      string // signed publickey request that no reading lets succeed: the reason
+	satRejected   bool   // fully valid signed request whose (user,key) the active callback rejects
+	saPresent     bool   // an accepting callback on this path returns a source-address option
+	lateFirstNone bool   // first none of the connection, sent after at least one definite failure: costs a full failure
+	why           string
 }
 
 const (
@@ -252,11 +253,17 @@ func (j *judge) expectPlain(st *mstate, idx int, q reqSpec) expect {
 	case "none":
 		e.class = "none"
 		if st.nones == 0 {
-			// "an initial none attempt is free": unambiguous only as the very first request
-			if idx == 0 {
+			// "an initial none attempt is free": unambiguous as the very first
+			// request; open while nothing before it was a definite failure
+			// (queries, partial successes, ambiguous items); a none that follows
+			// a definite failure is not an initial attempt under any reading
+			switch {
+			case idx == 0:
 				e.inc = [2]int{0, 0}
-			} else {
+			case st.fmin == 0:
 				e.inc = [2]int{0, 1}
+			default:
+				e.lateFirstNone = true
 			}
 		}
 		switch {
@@ -484,6 +491,12 @@ func (j *judge) run() {
 				} else {
 					j.count("fail:" + shortClass(e.class))
 					j.refused(e)
+					if e.lateFirstNone {
+						j.count("first_none_after_failures_counted")
+						if max <= 0 || st.fmax+1 < max {
+							j.count("first_none_after_failures_below_limit")
+						}
+					}
 					if e.saDenied != "" {
 						j.count("source_address_denied")
 						j.count("sa_denied:" + e.saDenied + ":" + c.remoteKind)
@@ -542,6 +555,10 @@ func (j *judge) run() {
 				j.refused(e)
 			case byFailures:
 				j.count("disconnect_by_failures")
+				if e.lateFirstNone {
+					j.count("first_none_after_failures_counted")
+					j.count("first_none_after_failures_disconnect")
+				}
 				j.count(fmt.Sprintf("disconnect_by_failures:MaxAuthTries=%d", c.maxAuthTries))
 				if s.reply == rDisconnect {
 					j.count("maxtries_disconnect_seen")
